@@ -34,8 +34,18 @@ ASSUMPTIONS = [
     "theorems are over the reals; the rounding excursion at u -> 1 (finding F7) is decided by the boundary stream on the real code",
 ]
 
+TRUSTED_EXTRA = ["the source translator harness/pytrans.py (its reading of numpy: element-wise arithmetic, Boolean-mask stores, loops over a concrete "
+                 "range unrolled, table lookups by an index whose finite value set is checked against the table) — exercised by the "
+                 "Float run of the translated source next to the real functions (source_tie in the evidence)"]
+
 EPS = float(np.finfo(np.float64).eps)
 LN10 = math.log(10.0)
+
+
+def regen():
+    """source tie: `spectra.py` of the working tree -> lean/NssVerif/Gen/Src/C12.lean (bridging theorems `C12.src_*`)"""
+    import srctie
+    return srctie.regen("C12")
 
 
 def _mods():
@@ -204,6 +214,16 @@ def check_power(ctx, nss, Simulation, sm, cfg, p, lo, hi, us, stream):
     rt = 1e-9 + 4.0 * EPS * cond(p, lo, hi)
     if not deg and not (close(nm, norm, rt, 0.0) and close(sw_m, sw, rt, 0.0)):
         ctx.disagree("C12.factors", {**base, "model": [nm, sw_m], "code": [float(norm), float(sw)]})
+    # ---- source tie: the translated `spectra.py` at Float next to the real functions, on the same numbers; the sample is compared
+    # in CDF space (the closed form subtracts b^m and a^m: same conditioning-aware tolerance as model-vs-code above)
+    if not deg:
+        import srctie
+        col = lambda v: np.full(max(n, 1), v, dtype=np.float64)
+        if n:
+            srctie.compare(ctx, "C12", "energySpectraPower", [col(p)[:n], col(lo)[:n], col(hi)[:n], us], [y], rtol=0.0, atol=tol,
+                           transform=[lambda v, i: float(cdf(p, lo, hi, v))])
+        srctie.compare(ctx, "C12", "specNormPower", [col(p)[:1], col(lo)[:1], col(hi)[:1]], [[float(norm)]], rtol=rt)
+        srctie.compare(ctx, "C12", "sumSpecWeightsPower", [col(p)[:1], col(lo)[:1], col(hi)[:1]], [[float(sw)]], rtol=rt)
     ctx.traces += 1
 
 
@@ -229,6 +249,12 @@ def check_mono(ctx, nss, Simulation, sm, cfg, e, n):
         ctx.violation(site, "mono-draws-random", "mono spectrum consumed random numbers", base)
     if not (np.array_equal(ym, y) and h2f(mo[n]) == float(norm) and h2f(mo[n + 1]) == float(sw)):
         ctx.disagree("C12.mono", {**base, "model": ym[:5].tolist(), "code": y[:5].tolist()})
+    # ---- source tie: the translated mono-energetic branches (exact: no arithmetic)
+    import srctie
+    if y.shape == (n,) and n:
+        srctie.compare(ctx, "C12", "energySpectraMono", [np.full(n, e)], [y], rtol=0.0)
+    srctie.compare(ctx, "C12", "specNormMono", [], [[float(norm)]], rtol=0.0, n=1)
+    srctie.compare(ctx, "C12", "sumSpecWeightsMono", [], [[float(sw)]], rtol=0.0, n=1)
     ctx.case(("mono", e, n), {"op": "Spectra(cfg)(N)", **base, "values": y[:3].tolist(), "spec_norm": float(norm),
                               "sum_spec_weights": float(sw)} if len(ctx.samples) < 5 else None)
     ctx.traces += 1
